@@ -9,12 +9,12 @@ open FxVerif.Model.C09
 
 variable {N : Type}
 
-/-- the three shape conditions the failure half of the property needs -/
-def restoring (sh : RunShape) : Bool := !sh.outerBefore && !sh.recovers && !sh.evmAfterWrite
+/-- the shape conditions the failure half of the property needs (round 4: no un-journaled write on the error path either) -/
+def restoring (sh : RunShape) : Bool := !sh.outerBefore && !sh.recovers && !sh.evmAfterWrite && !sh.outerOnError
 
 theorem restoring_of_clean {sh : RunShape} (h : sh.clean = true) : restoring sh = true := by
   simp only [RunShape.clean, Bool.and_eq_true, Bool.not_eq_true'] at h
-  simp [restoring, h.1.1.1, h.1.1.2, h.1.2]
+  simp [restoring, h.1.1.1.1, h.1.1.1.2, h.1.1.2, h.2]
 
 inductive Restoring : List (Prog N) → Prop
   | nil : Restoring []
@@ -72,14 +72,14 @@ theorem runPre_inv (ev : Eval N) (roCtx roCall : Bool) (gas req : Nat) (sh : Run
     (inner : List (Nat × List (Prog N))) (act : ActionX N) (s : St N) (hsh : restoring sh = true)
     (hev : ∀ x ∈ inner, ∀ ro' (s' : St N), Inv s' (ev ro' x.1 x.2 s')) :
     Inv s (runPre ev roCtx roCall gas req sh out inner act s) := by
-  have hb : sh.outerBefore = false ∧ sh.recovers = false ∧ sh.evmAfterWrite = false := by
+  have hb : sh.outerBefore = false ∧ sh.recovers = false ∧ sh.evmAfterWrite = false ∧ sh.outerOnError = false := by
     simp only [restoring, Bool.and_eq_true, Bool.not_eq_true'] at hsh
-    exact ⟨hsh.1.1, hsh.1.2, hsh.2⟩
-  obtain ⟨h1, h3, h4⟩ := hb
+    exact ⟨hsh.1.1.1, hsh.1.1.2, hsh.1.2, hsh.2⟩
+  obtain ⟨h1, h3, h4, h6⟩ := hb
   unfold runPre
   by_cases hg : gas < req
   · simp only [hg, ↓reduceIte]; exact fun _ => Ext.refl s
-  · simp only [hg, ↓reduceIte, h1, h3, Bool.false_eq_true, runClosure, h4]
+  · simp only [hg, ↓reduceIte, h1, h3, h6, Bool.false_eq_true, runClosure, h4]
     have hiext := runInner_ext ev roCtx inner s hev
     generalize hri : runInner ev roCtx inner s = ri at hiext
     obtain ⟨r1, s1⟩ := ri
